@@ -573,7 +573,7 @@ fn p10(p: &mut ProbeReport, r: &mut Rng, budget: usize) {
     while p.evaluations < budget {
         let code = LANGS[i % LANGS.len()]; i += 1;
         let v = vocab(code);
-        let case = store_case(code, &v, r, "c10".into(), &StoreGenOpts { max_records: 5, ops: 14, ties: false, small_alphabet: i % 3 == 0 });
+        let case = store_case(code, &v, r, "c10".into(), &StoreGenOpts { max_records: 6, ops: 16, ties: i % 2 == 0, small_alphabet: i % 3 == 0, cache_stress: i % 4 < 2 });
         let mut st = new_store(code, core::DEFAULT_LIMIT);
         let mut recs: Vec<(usize, String, usize)> = vec![];
         let mut limit = core::DEFAULT_LIMIT;
